@@ -36,3 +36,21 @@ pub fn leaves(prefix: &str, t: &DataType, out: &mut Vec<String>) {
         t => out.push(format!("{}:?{:?}", prefix, t)),
     }
 }
+
+/// the values (bit patterns, nulls included as stored) of the primitive column at a dotted path of struct member names
+pub fn leaf_values(a: &dyn Array, path: &str) -> Option<Vec<u64>> {
+    let mut cur: Box<dyn Array> = a.to_boxed();
+    for name in path.split('.') {
+        let next = { let s = cur.as_any().downcast_ref::<StructArray>()?; let i = s.fields().iter().position(|f| f.name == name)?; s.values()[i].clone() };
+        cur = next;
+    }
+    Some(match cur.data_type() {
+        DataType::UInt8 => cur.as_any().downcast_ref::<PrimitiveArray<u8>>()?.values().iter().map(|x| *x as u64).collect(),
+        DataType::Int8 => cur.as_any().downcast_ref::<PrimitiveArray<i8>>()?.values().iter().map(|x| *x as u8 as u64).collect(),
+        DataType::UInt16 => cur.as_any().downcast_ref::<PrimitiveArray<u16>>()?.values().iter().map(|x| *x as u64).collect(),
+        DataType::UInt32 => cur.as_any().downcast_ref::<PrimitiveArray<u32>>()?.values().iter().map(|x| *x as u64).collect(),
+        DataType::Int32 => cur.as_any().downcast_ref::<PrimitiveArray<i32>>()?.values().iter().map(|x| *x as u32 as u64).collect(),
+        DataType::Float32 => cur.as_any().downcast_ref::<PrimitiveArray<f32>>()?.values().iter().map(|x| x.to_bits() as u64).collect(),
+        _ => return None,
+    })
+}
